@@ -1323,12 +1323,20 @@ impl Gen {
     }
     // now and then the file is removed at the close and re-created by a `create=1` reopen
     let remove = self.rng.chance(4);
+    // (sometimes while another open description of the file holds a shared advisory lock)
+    let locked = remove && self.rng.chance(50);
+    if locked {
+      self.emit("flock_hold".to_string());
+    }
     if remove {
       self.emit("remove_on_drop 1".to_string());
     }
     self.close_all();
     if remove || self.rng.chance(50) {
       self.emit("filehash".to_string());
+    }
+    if locked {
+      self.emit("flock_release".to_string());
     }
     if remove {
       let cap = if self.rng.chance(80) { "same".to_string() } else { self.pick_cap() };
